@@ -354,7 +354,7 @@ def returns_of(block: tuple) -> list[tuple[S, S]]:
     return out
 
 
-def paths(block: tuple, env: Optional[dict] = None, limit: int = 4096, fall: S = ("fall",)) -> list[tuple[tuple, S]]:
+def paths(block: tuple, env: Optional[dict] = None, limit: int = 4096, fall: S = ("fall",), split_values: bool = False) -> list[tuple[tuple, S]]:
     """Path-sensitive tabulation of a loop-free canonical block: list of
     (tuple of branch literals in order, outcome) where outcome is the folded return
     value, ('raise', exc) or ('fall',).  Assignments to variables update a symbolic
@@ -373,7 +373,12 @@ def paths(block: tuple, env: Optional[dict] = None, limit: int = 4096, fall: S =
             st = stmts[i]
             tag = st[0]
             if tag == "ret":
-                out.append((lits, sub(st[1], e)))
+                v = sub(st[1], e)
+                if split_values and isinstance(v, tuple) and v[:1] == ("ite",) and len(v) == 4 and not _is_boolean(v[2]):
+                    # 'return a if c else b' is 'if c: return a' ; 'return b'
+                    walk((("if", v[1], (("ret", v[2]),), (("ret", v[3]),)),), 0, lits, {})
+                    return
+                out.append((lits, v))
                 return
             if tag == "raise":
                 out.append((lits, ("raise", sub(st[1], e))))
@@ -412,7 +417,7 @@ def paths(block: tuple, env: Optional[dict] = None, limit: int = 4096, fall: S =
     return out
 
 
-def traces(block: tuple, env: Optional[dict] = None, limit: int = 4096, fall: S = ("fall",), keep_sets: bool = False) -> list[tuple[tuple, tuple, S]]:
+def traces(block: tuple, env: Optional[dict] = None, limit: int = 4096, fall: S = ("fall",), keep_sets: bool = False, split_values: bool = False) -> list[tuple[tuple, tuple, S]]:
     """Like ``paths`` but with what is done along each path: list of (branch literals, effects, outcome), where the
     effects are the statements other than plain variable assignments, branches and exits, in order, with the variable
     environment substituted (loops are kept whole as one effect).  The result does not depend on how the branches are
@@ -430,7 +435,11 @@ def traces(block: tuple, env: Optional[dict] = None, limit: int = 4096, fall: S 
             st = stmts[i]
             tag = st[0]
             if tag == "ret":
-                out.append((lits, eff, sub(st[1], e)))
+                v = sub(st[1], e)
+                if split_values and isinstance(v, tuple) and v[:1] == ("ite",) and len(v) == 4 and not _is_boolean(v[2]):
+                    walk((("if", v[1], (("ret", v[2]),), (("ret", v[3]),)),), 0, lits, {}, eff)
+                    return
+                out.append((lits, eff, v))
                 return
             if tag == "raise":
                 out.append((lits, eff, ("raise", sub(st[1], e))))
